@@ -344,14 +344,23 @@ def obligations(ctx):
 
 def shards(ctx):
     obs = obligations(ctx)
-    n = 16
-    return [{'obs': obs[i::n]} for i in range(n)]
+    n = 15
+    jobs = [{'obs': obs[i::n]} for i in range(n)]
+    # order independence: the tables are built lazily and cached; one process computes ALL attribute tables in
+    # schema order and then re-checks every one of them in reverse order, so a table that is altered by the later
+    # construction of another type's table (shared list, polluted base) is seen
+    els = sorted(schema().element_type)
+    again = [('attributes', el) for el in els] + [('attribute-group', g) for g in sorted(schema().attgroups)]
+    jobs.append({'obs': again + list(reversed(again)), 'second_pass': True})
+    return jobs
 
 
 def run_shard(ctx, shard, acc):
     s = schema()
-    for kind, arg in shard['obs']:
+    for i, (kind, arg) in enumerate(shard['obs']):
         case = {'ob': kind, 'arg': arg}
+        if shard.get('second_pass'):
+            case['pass'] = 1 if i < len(shard['obs']) // 2 else 2
         acc.case(case, True)
         acc.count(kind)
         if kind == 'attributes':
